@@ -156,9 +156,10 @@ def replay(d: dict):
     elif d.get('choices') is None:
         return False, 'this violation compares several schedules; re-run the check'
     else:
+        explore.warm(ctx, d)
         x = explore.run_once(ctx, d['choices'])
         x2 = explore.run_once(ctx, d['choices'])
-        if session.outcome_signature(x) != session.outcome_signature(x2):
+        if session.outcome_signature(x) != session.outcome_signature(x2) and not d.get('repeat'):
             raise prims.InternalError('replay is not deterministic')
         ctx.judge(x, c, d['choices'])
     msgs = [f'{v.key}: {v.message}' for v in c.violations]
